@@ -219,6 +219,27 @@ pub trait ChainVisitor {
     fn visit<T: ChainT>(self) -> Self::Out;
 }
 
+/// Idempotent custom sanitizer that can CREATE leading/trailing white space.
+fn separators_to_spaces(s: String) -> String {
+    s.replace(['_', '-'], " ")
+}
+
+fn gen_sep_string(rng: &mut Rng) -> String {
+    let mut s = String::new();
+    for _ in 0..rng.below(3) {
+        s.push(*rng.pick(&['_', '-', ' ', '\u{2003}']));
+    }
+    s.push_str(&gen_string(rng, 6));
+    if rng.chance(1, 2) {
+        let at = s.char_indices().map(|c| c.0).nth(rng.usize_below(s.chars().count().max(1))).unwrap_or(0);
+        s.insert(at, *rng.pick(&['_', '-']));
+    }
+    for _ in 0..rng.below(3) {
+        s.push(*rng.pick(&['_', '-', ' ', '\t']));
+    }
+    s
+}
+
 fn num_text(rng: &mut Rng, lo: i128, hi: i128) -> String {
     let v = gen_int(rng, lo, hi, i64::MIN as i128 * 4, i64::MAX as i128 * 4);
     match rng.below(10) {
@@ -323,6 +344,36 @@ chain_decls! {
     family = "string"; validated = true; arbitrary = false; default = false;
     gen = |r| gen_string(r, 6);
     text = |r| gen_string(r, 6);
+
+    // custom idempotent sanitizer interleaved with the built-in ones (orders whose composition is
+    // itself idempotent: the custom step never runs after the last trim)
+    #[nutype(sanitize(lowercase, with = separators_to_spaces, trim), validate(not_empty, len_char_max = 16),
+        derive(Debug, Clone, PartialEq, Display, FromStr, TryFrom, Into, AsRef, Deref, Serialize, Deserialize))]
+    struct LowerSepTrim(String);
+    family = "string"; validated = true; arbitrary = false; default = false;
+    gen = |r| gen_sep_string(r);
+    text = |r| gen_sep_string(r);
+
+    #[nutype(sanitize(with = separators_to_spaces, trim, lowercase), validate(len_char_max = 16),
+        derive(Debug, Clone, PartialEq, Display, FromStr, TryFrom, Into, AsRef, Deref, Serialize, Deserialize))]
+    struct SepTrimLower(String);
+    family = "string"; validated = true; arbitrary = false; default = false;
+    gen = |r| gen_sep_string(r);
+    text = |r| gen_sep_string(r);
+
+    #[nutype(sanitize(uppercase, with = separators_to_spaces, trim),
+        derive(Debug, Clone, PartialEq, Display, FromStr, From, Into, AsRef, Deref, Serialize, Deserialize))]
+    struct UpperSepTrim(String);
+    family = "string"; validated = false; arbitrary = false; default = false;
+    gen = |r| gen_sep_string(r);
+    text = |r| gen_sep_string(r);
+
+    #[nutype(sanitize(with = separators_to_spaces, uppercase, trim), validate(not_empty),
+        derive(Debug, Clone, PartialEq, Display, FromStr, TryFrom, Into, AsRef, Deref, Serialize, Deserialize))]
+    struct SepUpperTrim(String);
+    family = "string"; validated = true; arbitrary = false; default = false;
+    gen = |r| gen_sep_string(r);
+    text = |r| gen_sep_string(r);
 
     #[nutype(validate(len_char_min = 1),
         derive(Debug, Clone, PartialEq, Display, FromStr, TryFrom, Into, AsRef, Deref, Serialize, Deserialize, Arbitrary))]
